@@ -94,11 +94,11 @@ impl KsTwoAsymptotic {
                 p = u_8cub.mul_add(p, 1.0);
                 d = u_8cub.mul_add(d, 25.0);
 
-                p = u_8cub.mul_add(p, 1.0);
-                d = u_8cub.mul_add(d, 9.0);
+                p = (u_8 * u_8).mul_add(p, 1.0);
+                d = (u_8 * u_8).mul_add(d, 9.0);
 
-                p = u_8cub.mul_add(p, 1.0);
-                d = u_8cub.mul_add(d, 1.0);
+                p = u_8.mul_add(p, 1.0);
+                d = u_8.mul_add(d, 1.0);
 
                 d = (PI * PI / (4.0 * x * x)).mul_add(d, -p);
                 d *= w * u / x;
